@@ -39,7 +39,7 @@ PLANS = {
     ),
     'C07': dict(
         oracle='C07', level='exploration',
-        profiles=[('hier', 4), ('hier_sparse', 2)], curated=[], configs=ALLCFG,
+        profiles=[('hier', 4), ('hier_sparse', 2), ('defer_nested_outer', 1)], curated=[], configs=ALLCFG,
         cp=dict(max_ops=25, kinds=['P', 'P', 'P', 'P', 'T'], final_stop=True), examples=(400, 3000), floor=(100, 1000),
         rule='Generated histories on machines of depth 2-3; oracle: per root region the sequence of (behaviour kind, nesting '
              'level) equals the model (inner levels consulted first, single consumption, cascades by level) and no behaviour of '
@@ -111,7 +111,7 @@ PLANS = {
     ),
     'C05': dict(
         oracle='C05', level='exploration',
-        profiles=[('defer', 5), ('defer_nested', 5)], curated=[], configs=ALLCFG,
+        profiles=[('defer', 4), ('defer_act', 3), ('defer_nested', 3), ('defer_nested_outer', 2)], curated=[], configs=ALLCFG,
         # counter boundaries: back tags deferred entries with a char, backmp11 with a uint16_t; a generator cannot reach 2^16
         # handled events, a quiet repeat operation can
         directed=[('seqwrap', ['S:0 P:0:1:0 RP:1:%d:0 P:2:2:0 N' % n for n in list(range(250, 262)) + list(range(65528, 65541))])],
